@@ -24,7 +24,7 @@ def run(pid, tier):
         charts = [json.loads(l) for l in f]
     viol, hits = [], collections.OrderedDict()
     for v in r["verdicts"]:
-        k = findings.match(known, v, charts[v["chart"] - 1], {"class": "unexplained"})
+        k = findings.match(known, v, charts[v["chart"] - 1], {"class": v.get("class", "unexplained")})
         if k:
             hits.setdefault(k["id"], [k, 0])[1] += 1
         else:
